@@ -56,7 +56,7 @@ impl Prop for C15 {
         }
     }
     fn required_probes(&self, tier: Tier) -> Vec<&'static str> {
-        let mut v = vec!["gap_sum_over_u32", "non_monotonic_timestamps", "tie_for_biggest_value", "tie_for_biggest_size", "coinbase_above_subsidy", "coinbase_below_subsidy", "height_around_halving", "sub_range", "coinbase_shaped_tx_not_first", "block_without_transactions_inside_range", "chain_longer_than_2_pow_18_blocks", "near_tie_for_biggest_size"];
+        let mut v = vec!["gap_sum_over_u32", "non_monotonic_timestamps", "tie_for_biggest_value", "tie_for_biggest_size", "coinbase_above_subsidy", "coinbase_below_subsidy", "height_around_halving", "sub_range", "coinbase_shaped_tx_not_first", "block_without_transactions_inside_range", "chain_longer_than_2_pow_18_blocks", "near_tie_for_biggest_size", "means_at_exact_rounding_ties"];
         if tier == Tier::Thorough {
             v.push("block_size_sum_over_u32");
         }
@@ -110,6 +110,54 @@ impl Prop for C15 {
             r.start = Some(base0);
             scn.runs = vec![r];
             h.stats.probe("chain_longer_than_2_pow_18_blocks");
+            h.check(&mut scn)?;
+            return Ok(());
+        }
+        if item % 10 == 3 {
+            // means that are exact ties at the printed precision and exactly representable in binary: five blocks
+            // whose sizes sum to 5 x 128 x odd (x.125/.375/.625/.875 KiB) and whose four gaps sum to 4 x 7.5 x odd
+            // seconds (the same eighths of a minute) — 0.875 prints as 0.88, never as 0.87
+            scn.family = "mean-ties".into();
+            let nb = rng.usize(4, 8);
+            let odd = 2 * rng.range(1, 40) + 1;
+            // gaps: a tie needs (nb-1) x 7.5 x odd to be an integer, i.e. an even number of gaps
+            let n_g = nb - 1;
+            let mut gaps: Vec<u64> = (0..n_g).map(|_| rng.range(1, 7 * odd)).collect();
+            if n_g % 2 == 0 {
+                let want = (n_g as u64) * 15 * odd / 2;
+                let partial: u64 = gaps[..n_g - 1].iter().sum();
+                if partial < want {
+                    gaps[n_g - 1] = want - partial;
+                } else {
+                    gaps = (0..n_g).map(|k| if k % 2 == 0 { 7 * odd } else { 8 * odd }).collect();
+                }
+            }
+            let mut ts = 1_400_000_000u32;
+            for i in 0..nb {
+                let mut b = marker_block(i as u64, rng.usize(0, 2), rng);
+                // uneven sizes, so that running means pass through non-dyadic values
+                b.txs[0].inputs[0].script_sig = Bytes(vec![3u8; rng.usize(2, 1500)]);
+                if i > 0 {
+                    ts += gaps[i - 1] as u32;
+                }
+                b.time = ts;
+                scn.chain.push(b);
+            }
+            let sizes: usize = scn.chain[..nb - 1].iter().map(|b| build_block(b, [0; 32]).bytes.len()).sum();
+            let unit = nb * 128;
+            for pad in 0..(2 * unit + 600) {
+                scn.chain[nb - 1].txs[0].inputs[0].script_sig = Bytes(vec![7u8; 2 + pad]);
+                let total = sizes + build_block(&scn.chain[nb - 1], [0; 32]).bytes.len();
+                if total % unit == 0 && (total / unit) % 2 == 1 {
+                    h.stats.probe("means_at_exact_rounding_ties");
+                    break;
+                }
+            }
+            scn.layouts = vec![single_file_layout(nb)];
+            scn.index = index_opts(rng);
+            let mut r = RunSpec::new("simplestats");
+            r.threads = pick_threads(rng);
+            scn.runs = vec![r];
             h.check(&mut scn)?;
             return Ok(());
         }
